@@ -48,6 +48,16 @@ class Contract:
         """extra (label, goal) pairs proving that untouched heap stayed equal"""
         return []
 
+    def modifies(self, I, S):
+        """pre-existing heap items (Obj / NpCell / PyList / PyDict / SDict) the function may write"""
+        return []
+
+    def all_props(self):
+        out = set(self.default_tags)
+        for v in self.tags.values():
+            out |= set(v)
+        return out
+
     def havoc(self, I, S):
         raise EngineLimit(f"contract {self.qualname} has no call-site model")
 
@@ -246,6 +256,23 @@ def verify_contract(repo, c, variant, policy=None, path_timeout_ms=2000, max_pat
             ctx.oblige(f"{c.qualname}:post:{label}", t, kind="post", info=tagsof(label))
         for label, t in c.frame(I, S):
             ctx.oblige(f"{c.qualname}:frame:{label}", t, kind="frame", info=tagsof("frame:" + label))
+        # heap frame: every write to a pre-existing object must be to something the contract declares
+        mods = c.modifies(I, S)
+        bad = []
+        for w in ctx.writes:
+            if w[0] in ("field", "list", "dict", "sdict", "cell") and not any(w[1] is m for m in mods):
+                bad.append(f"{w[0]}:{getattr(w[1], 'label', None) or w[1]!r}" + (f".{w[2]}" if len(w) > 2 else ""))
+        inf = tagsof("frame:heap")
+        inf["tags"] = sorted(set(inf["tags"]) | set(c.all_props()))
+        inf["undeclared_writes"] = sorted(set(bad))
+        ctx.oblige(f"{c.qualname}:frame:writes-within-modifies", z3.BoolVal(not bad), kind="frame", info=inf)
+        # global heap frame (C19): class attributes / module globals written on this path
+        gw = sorted({f"{w[1]}.{w[2]}" for w in ctx.writes if w[0] == "classattr"
+                     and w[1] not in getattr(c, "global_writes_allowed", ())})
+        inf = tagsof("frame:global")
+        inf["tags"] = sorted(set(inf["tags"]) | {"C19"})
+        inf["global_writes"] = gw
+        ctx.oblige(f"{c.qualname}:frame:C19.no-undeclared-global-writes", z3.BoolVal(not gw), kind="frame", info=inf)
         # reachability cover: this normal-exit path is feasible
         return "return"
 
